@@ -113,7 +113,15 @@ Inject(sd, base, k) ==
          LET good == [schema |-> t.schema, table |-> t.name, cols |-> <<t.cols[1].name>>]
              bad == [schema |-> t.schema, table |-> t.name, cols |-> <<"zz_nocol">>]
              left == Coin(sd, 919, 50)
-         IN IF Coin(sd, 920, 50)
+             \* composite: one member of an endpoint exists, the other does not (either order)
+             other == t.cols[Len(t.cols)].name
+             goodC == [schema |-> t.schema, table |-> t.name, cols |-> <<t.cols[1].name, other>>]
+             badC == [schema |-> t.schema, table |-> t.name,
+                      cols |-> IF Coin(sd, 926, 50) THEN <<t.cols[1].name, "zz_nocol">> ELSE <<"zz_nocol", other>>]
+         IN IF Coin(sd, 925, 35)
+            THEN InsertSomewhere(sd, base, [d |-> "ref", name |-> "", left |-> IF left THEN badC ELSE goodC, type |-> Pick(sd, 921, RefKinds),
+                                              right |-> IF left THEN goodC ELSE badC, onupdate |-> "", ondelete |-> "", comment |-> ""])
+            ELSE IF Coin(sd, 920, 50)
             THEN InsertSomewhere(sd, base, [d |-> "ref", name |-> "", left |-> IF left THEN bad ELSE good, type |-> Pick(sd, 921, RefKinds),
                                               right |-> IF left THEN good ELSE bad, onupdate |-> "", ondelete |-> "", comment |-> ""])
             ELSE [base EXCEPT ![tpos].cols[1].refs = Append(@, [type |-> Pick(sd, 922, RefKinds), addr |-> bad])]
